@@ -1,3 +1,1146 @@
 package main
 
-func checkTokenIndex(w *World, r *Report) {}
+// R05.1 — token-index safety: interval analysis over (Parser.tokens, Parser.tokenIndex) on go/cfg.
+//
+// Facts per (slice, index-base) pair:  ub = c  means  base + c < len(slice);  lb = k  means
+// base >= k.  Branch conditions refine facts in evaluation order (go/cfg does not split && / ||);
+// `tok.Type == K` with K != TOKEN_EOF proves one more token (the tokenizers end every stream with
+// the TOKEN_EOF sentinel: checked separately); token copies are tracked as aliases; callee
+// summaries: "preserves idx < len" (greatest fixed point) and "never lowers tokenIndex"
+// (monotone); entry facts of functions are the meet over their call sites; block handlers get
+// the facts proved at their single dynamic call site.
+
+import (
+	"fmt"
+	"go/ast"
+	"go/constant"
+	"go/token"
+	"go/types"
+	"sort"
+	"strings"
+
+	"golang.org/x/tools/go/cfg"
+	"golang.org/x/tools/go/ssa"
+)
+
+const NEG = -1 << 30
+const POS = 1 << 30
+
+type tfact struct{ ub, lb int } // idx+ub < len ; idx >= lb
+type talias struct {
+	pair string
+	c    int
+}
+type tstate struct {
+	f   map[string]tfact
+	a   map[types.Object]talias
+	top bool
+}
+
+func bottomFact() tfact { return tfact{NEG, 0} }
+
+func (s *tstate) clone() *tstate {
+	n := &tstate{f: map[string]tfact{}, a: map[types.Object]talias{}, top: s.top}
+	for k, v := range s.f {
+		n.f[k] = v
+	}
+	for k, v := range s.a {
+		n.a[k] = v
+	}
+	return n
+}
+func (s *tstate) get(k string) tfact {
+	if v, ok := s.f[k]; ok {
+		return v
+	}
+	return bottomFact()
+}
+func tiMin(a, b int) int {
+	if a < b {
+		return a
+	}
+	return b
+}
+func tiMax(a, b int) int {
+	if a > b {
+		return a
+	}
+	return b
+}
+func tiJoin(a, b *tstate) *tstate {
+	if a == nil || a.top {
+		return b.clone()
+	}
+	if b.top {
+		return a.clone()
+	}
+	n := &tstate{f: map[string]tfact{}, a: map[types.Object]talias{}}
+	for k, v := range a.f {
+		w := b.get(k)
+		n.f[k] = tfact{tiMin(v.ub, w.ub), tiMin(v.lb, w.lb)}
+	}
+	for k, v := range a.a {
+		if w, ok := b.a[k]; ok && w == v {
+			n.a[k] = v
+		}
+	}
+	return n
+}
+func tiEq(a, b *tstate) bool {
+	if a.top != b.top || len(a.a) != len(b.a) {
+		return false
+	}
+	keys := map[string]bool{}
+	for k := range a.f {
+		keys[k] = true
+	}
+	for k := range b.f {
+		keys[k] = true
+	}
+	for k := range keys {
+		if a.get(k) != b.get(k) {
+			return false
+		}
+	}
+	for k, v := range a.a {
+		if b.a[k] != v {
+			return false
+		}
+	}
+	return true
+}
+
+type analyzer struct {
+	w            *World
+	info         *types.Info
+	tokenT       types.Type
+	parserT      types.Type
+	eofVal       constant.Value
+	funcs        map[*types.Func]*ast.FuncDecl
+	preserve     map[*types.Func]bool
+	entry        map[*types.Func]*tstate
+	handlers     map[*types.Func]bool
+	parents      map[ast.Node]ast.Node
+	report       map[string]string
+	sites        map[string]bool
+	collectEntry bool
+	changedEntry bool
+	mono         map[*types.Func]bool
+	leq          map[*types.Func]bool
+	exitNeed     int
+	nonEOFPred   map[*types.Func]bool
+	monoFail     bool
+	monoProbe    int
+	decrOK       map[string]bool
+	decrBad      map[string]string
+	siteInfo     map[string]tsite
+}
+
+func (an *analyzer) isTokSlice(e ast.Expr) bool {
+	t := an.info.TypeOf(e)
+	if t == nil {
+		return false
+	}
+	sl, ok := t.Underlying().(*types.Slice)
+	return ok && types.Identical(sl.Elem(), an.tokenT)
+}
+func (an *analyzer) isParserExpr(e ast.Expr) bool {
+	t := an.info.TypeOf(e)
+	if t == nil {
+		return false
+	}
+	if p, ok := t.(*types.Pointer); ok {
+		return types.Identical(p.Elem(), an.parserT)
+	}
+	return false
+}
+func tiEs(e ast.Expr) string { return types.ExprString(e) }
+
+// decompose index expr into base string and const offset
+func (an *analyzer) decomp(e ast.Expr) (string, int) {
+	e = ast.Unparen(e)
+	if b, ok := e.(*ast.BinaryExpr); ok && (b.Op == token.ADD || b.Op == token.SUB) {
+		if tv, ok := an.info.Types[b.Y]; ok && tv.Value != nil && tv.Value.Kind() == constant.Int {
+			c, _ := constant.Int64Val(tv.Value)
+			base, c0 := an.decomp(b.X)
+			if b.Op == token.SUB {
+				return base, c0 - int(c)
+			}
+			return base, c0 + int(c)
+		}
+	}
+	return tiEs(e), 0
+}
+func tiPairkey(s, b string) string { return s + "|" + b }
+
+// find slice for base: we key facts by pair; when idx base changes we update all pairs with that base
+func (an *analyzer) shiftBase(st *tstate, base string, k int) {
+	for key, f := range st.f {
+		if strings.HasSuffix(key, "|"+base) {
+			nf := f
+			if nf.ub > NEG {
+				nf.ub -= k
+				if nf.ub < -4 {
+					nf.ub = NEG
+				}
+			}
+			nf.lb += k
+			if nf.lb > 8 {
+				nf.lb = 8
+			}
+			st.f[key] = nf
+		}
+	}
+	for o, a := range st.a {
+		if strings.HasSuffix(a.pair, "|"+base) {
+			a.c -= k
+			st.a[o] = a
+		}
+	}
+}
+func (an *analyzer) killBase(st *tstate, base string, lb int) {
+	if lb == NEG && strings.HasSuffix(base, ".tokenIndex") {
+		lb = 0 // the parser cursor is never negative (R05.1m)
+	}
+	for key := range st.f {
+		if strings.HasSuffix(key, "|"+base) {
+			st.f[key] = tfact{NEG, lb}
+		}
+	}
+	for o, a := range st.a {
+		if strings.HasSuffix(a.pair, "|"+base) {
+			delete(st.a, o)
+		}
+	}
+}
+func (an *analyzer) killSlice(st *tstate, sl string) {
+	for key := range st.f {
+		if strings.HasPrefix(key, sl+"|") {
+			f := st.f[key]
+			f.ub = NEG
+			st.f[key] = f
+		}
+	}
+	for o, a := range st.a {
+		if strings.HasPrefix(a.pair, sl+"|") {
+			delete(st.a, o)
+		}
+	}
+}
+
+// tokenRef: expression denotes a token S[I] or alias ident; returns pair, c
+func (an *analyzer) tokenRef(st *tstate, e ast.Expr) (string, int, bool) {
+	e = ast.Unparen(e)
+	switch x := e.(type) {
+	case *ast.IndexExpr:
+		if an.isTokSlice(x.X) {
+			b, c := an.decomp(x.Index)
+			return tiPairkey(tiEs(x.X), b), c, true
+		}
+	case *ast.Ident:
+		if o := an.info.ObjectOf(x); o != nil {
+			if a, ok := st.a[o]; ok {
+				return a.pair, a.c, true
+			}
+		}
+	}
+	return "", 0, false
+}
+
+func (an *analyzer) nonEOFConst(e ast.Expr) bool {
+	tv, ok := an.info.Types[e]
+	if !ok || tv.Value == nil {
+		return false
+	}
+	id, ok := ast.Unparen(e).(*ast.Ident)
+	if !ok || !strings.HasPrefix(id.Name, "TOKEN_") {
+		return false
+	}
+	return !constant.Compare(tv.Value, token.EQL, an.eofVal)
+}
+func (an *analyzer) isEOFConst(e ast.Expr) bool {
+	tv, ok := an.info.Types[e]
+	if !ok || tv.Value == nil {
+		return false
+	}
+	id, ok := ast.Unparen(e).(*ast.Ident)
+	return ok && id.Name == "TOKEN_EOF"
+}
+
+func (an *analyzer) learnUB(st *tstate, pair string, c int) {
+	f := st.get(pair)
+	f.ub = tiMax(f.ub, c)
+	st.f[pair] = f
+}
+func (an *analyzer) learnLB(st *tstate, pair string, k int) {
+	f := st.get(pair)
+	f.lb = tiMax(f.lb, k)
+	st.f[pair] = f
+}
+
+// refine state by condition cond being `val`
+func (an *analyzer) refine(st *tstate, cond ast.Expr, val bool) {
+	cond = ast.Unparen(cond)
+	switch x := cond.(type) {
+	case *ast.UnaryExpr:
+		if x.Op == token.NOT {
+			an.refine(st, x.X, !val)
+		}
+	case *ast.BinaryExpr:
+		switch x.Op {
+		case token.LAND:
+			if val {
+				an.refine(st, x.X, true)
+				an.refine(st, x.Y, true)
+			}
+		case token.LOR:
+			if !val {
+				an.refine(st, x.X, false)
+				an.refine(st, x.Y, false)
+			}
+		case token.LSS, token.GEQ, token.GTR, token.LEQ:
+			// normalize to A < len(S)
+			op := x.Op
+			l, r := x.X, x.Y
+			if !val {
+				switch op {
+				case token.LSS:
+					op = token.GEQ
+				case token.GEQ:
+					op = token.LSS
+				case token.GTR:
+					op = token.LEQ
+				case token.LEQ:
+					op = token.GTR
+				}
+			}
+			// forms true: A < len(S) ; len(S) > A
+			if op == token.GTR {
+				l, r = r, l
+				op = token.LSS
+			} else if op == token.LEQ { // A <= B  => B >= A
+				l, r = r, l
+				op = token.GEQ
+			}
+			if op == token.LSS {
+				if s, ok := an.lenOf(r); ok {
+					b, c := an.decomp(l)
+					an.learnUB(st, tiPairkey(s, b), c)
+				}
+				// const < idx  => idx >= const+1 ; handle i > 0 i.e. 0 < i
+				if tv, ok := an.info.Types[l]; ok && tv.Value != nil {
+					if k, ok2 := constant.Int64Val(tv.Value); ok2 {
+						b, c := an.decomp(r)
+						for key := range st.f {
+							if strings.HasSuffix(key, "|"+b) {
+								an.learnLB(st, key, int(k)+1-c)
+							}
+						}
+						_ = c
+					}
+				}
+			} else if op == token.GEQ { // l >= r
+				if tv, ok := an.info.Types[r]; ok && tv.Value != nil {
+					if k, ok2 := constant.Int64Val(tv.Value); ok2 {
+						b, c := an.decomp(l)
+						for key := range st.f {
+							if strings.HasSuffix(key, "|"+b) {
+								an.learnLB(st, key, int(k)-c)
+							}
+						}
+					}
+				}
+			}
+		case token.EQL, token.NEQ:
+			isEq := (x.Op == token.EQL) == val
+			// X.Type == K
+			for _, pr := range [][2]ast.Expr{{x.X, x.Y}, {x.Y, x.X}} {
+				sel, ok := ast.Unparen(pr[0]).(*ast.SelectorExpr)
+				if !ok || sel.Sel.Name != "Type" {
+					continue
+				}
+				pair, c, ok := an.tokenRef(st, sel.X)
+				if !ok {
+					continue
+				}
+				if isEq && an.nonEOFConst(pr[1]) {
+					an.learnUB(st, pair, c+1)
+				}
+				if !isEq && an.isEOFConst(pr[1]) {
+					an.learnUB(st, pair, c+1)
+				}
+			}
+		}
+	case *ast.CallExpr:
+		// kind predicates
+		if f := an.w.callee(x); f != nil && val && an.nonEOFPred[f] && len(x.Args) == 1 {
+			if sel, ok := ast.Unparen(x.Args[0]).(*ast.SelectorExpr); ok && sel.Sel.Name == "Type" {
+				if pair, c, ok := an.tokenRef(st, sel.X); ok {
+					an.learnUB(st, pair, c+1)
+				}
+			}
+		}
+	}
+}
+func (an *analyzer) lenOf(e ast.Expr) (string, bool) {
+	c, ok := ast.Unparen(e).(*ast.CallExpr)
+	if !ok || len(c.Args) != 1 {
+		return "", false
+	}
+	if id, ok := c.Fun.(*ast.Ident); !ok || id.Name != "len" {
+		return "", false
+	}
+	if !an.isTokSlice(c.Args[0]) {
+		return "", false
+	}
+	return tiEs(c.Args[0]), true
+}
+
+func (an *analyzer) pos(n ast.Node) string {
+	p := an.w.Fset.Position(n.Pos())
+	return fmt.Sprintf("%s:%d", p.Filename[strings.LastIndex(p.Filename, "/")+1:], p.Line)
+}
+
+// check sites in node (not descending into FuncLit), short-circuit aware
+func (an *analyzer) checkSites(st *tstate, n ast.Node, fn string, doReport bool) {
+	ast.Inspect(n, func(m ast.Node) bool {
+		if _, ok := m.(*ast.FuncLit); ok {
+			return false
+		}
+		if be, ok := m.(*ast.BinaryExpr); ok && (be.Op == token.LAND || be.Op == token.LOR) {
+			an.checkSites(st, be.X, fn, doReport)
+			st2 := st.clone()
+			an.refine(st2, be.X, be.Op == token.LAND)
+			an.checkSites(st2, be.Y, fn, doReport)
+			return false
+		}
+		var sl, idx ast.Expr
+		switch x := m.(type) {
+		case *ast.IndexExpr:
+			if an.isTokSlice(x.X) {
+				sl, idx = x.X, x.Index
+			}
+		}
+		if sl == nil {
+			return true
+		}
+		b, c := an.decomp(idx)
+		f := st.get(tiPairkey(tiEs(sl), b))
+		key := fmt.Sprintf("%s %s: %s[%s]", an.pos(m), fn, tiEs(sl), tiEs(idx))
+		if doReport {
+			an.sites[key] = true
+			if an.siteInfo != nil {
+				ctx := ""
+				for p := an.parents[m]; p != nil; p = an.parents[p] {
+					if c, ok := p.(*ast.CallExpr); ok && an.w.calleeIs(c, "fmt", "", "Errorf") {
+						ctx = "argument of fmt.Errorf"
+						break
+					}
+					if _, ok := p.(ast.Stmt); ok {
+						break
+					}
+				}
+				an.siteInfo[key] = tsite{fn, fmt.Sprintf("%s[%s]", tiEs(sl), tiEs(idx)), m.Pos(), ctx}
+			}
+			if !(f.ub >= c && f.lb+c >= 0) {
+				an.report[key] = fmt.Sprintf("need ub>=%d lb>=%d have ub=%d lb=%d", c, -c, f.ub, f.lb)
+			}
+		}
+		return true
+	})
+}
+
+func (an *analyzer) calleeOf(c *ast.CallExpr) *types.Func {
+	var id *ast.Ident
+	switch f := ast.Unparen(c.Fun).(type) {
+	case *ast.Ident:
+		id = f
+	case *ast.SelectorExpr:
+		id = f.Sel
+	}
+	if id == nil {
+		return nil
+	}
+	fn, _ := an.info.Uses[id].(*types.Func)
+	return fn
+}
+
+// apply effects of node
+func (an *analyzer) effects(st *tstate, n ast.Node) {
+	// calls with parser args
+	var calls []*ast.CallExpr
+	ast.Inspect(n, func(m ast.Node) bool {
+		if _, ok := m.(*ast.FuncLit); ok {
+			return false
+		}
+		if c, ok := m.(*ast.CallExpr); ok {
+			calls = append(calls, c)
+		}
+		return true
+	})
+	for _, c := range calls {
+		touches := false
+		if sel, ok := ast.Unparen(c.Fun).(*ast.SelectorExpr); ok && an.isParserExpr(sel.X) {
+			touches = true
+		}
+		for _, a := range c.Args {
+			if an.isParserExpr(a) {
+				touches = true
+			}
+		}
+		if !touches {
+			continue
+		}
+		callee := an.calleeOf(c)
+		if an.collectEntry {
+			var targets []*types.Func
+			if callee != nil {
+				targets = append(targets, callee)
+			} else { // dynamic: handler call
+				for h := range an.handlers {
+					targets = append(targets, h)
+				}
+			}
+			for _, t := range targets {
+				if _, ok := an.funcs[t]; !ok {
+					continue
+				}
+				// canonicalize: take best tfact among parser cursors
+				cs := an.canon(st)
+				old := an.entry[t]
+				var nw *tstate
+				if old == nil {
+					nw = cs
+				} else {
+					nw = tiJoin(old, cs)
+				}
+				if old == nil || !tiEq(old, nw) {
+					an.entry[t] = nw
+					an.changedEntry = true
+				}
+			}
+		}
+		pres := callee != nil && an.preserve[callee]
+		mono := callee != nil && an.mono[callee]
+		leq := callee != nil && an.leq[callee]
+		if callee == nil {
+			// dynamic call of a block handler: all handlers must agree
+			pres, mono, leq = true, true, true
+			for h := range an.handlers {
+				pres = pres && an.preserve[h]
+				mono = mono && an.mono[h]
+				leq = leq && an.leq[h]
+			}
+		}
+		for key, f := range st.f {
+			if strings.Contains(key, ".tokenIndex") {
+				lb := 0
+				if mono && f.lb > 0 {
+					lb = f.lb
+				}
+				if pres && f.ub >= 0 {
+					st.f[key] = tfact{0, lb}
+				} else if leq && f.ub >= -1 {
+					st.f[key] = tfact{-1, lb} // idx <= len survives the call
+				} else {
+					st.f[key] = tfact{NEG, lb}
+				}
+			}
+		}
+		for o, a := range st.a {
+			if strings.Contains(a.pair, ".tokenIndex") {
+				delete(st.a, o)
+			}
+		}
+	}
+	switch x := n.(type) {
+	case *ast.IncDecStmt:
+		b, c := an.decomp(x.X)
+		if c == 0 {
+			if x.Tok == token.INC {
+				an.shiftBase(st, b, 1)
+			} else {
+				an.shiftBase(st, b, -1)
+			}
+		}
+	case *ast.AssignStmt:
+		for i, lhs := range x.Lhs {
+			lb := tiEs(lhs)
+			var rhs ast.Expr
+			if len(x.Rhs) == len(x.Lhs) {
+				rhs = x.Rhs[i]
+			}
+			if x.Tok == token.ADD_ASSIGN || x.Tok == token.SUB_ASSIGN {
+				if tv, ok := an.info.Types[rhs]; ok && tv.Value != nil {
+					k, _ := constant.Int64Val(tv.Value)
+					if x.Tok == token.SUB_ASSIGN {
+						if strings.HasSuffix(lb, ".tokenIndex") && an.decrOK != nil {
+							best := NEG
+							for key, f := range st.f {
+								if strings.HasSuffix(key, "|"+lb) && f.lb > best {
+									best = f.lb
+								}
+							}
+							dk := an.pos(x) + " " + tiEs(lhs) + " -= " + fmt.Sprint(k)
+							if best >= int(k) {
+								an.decrOK[dk] = true
+							} else {
+								an.decrBad[dk] = fmt.Sprintf("cursor lowered by %d where only idx >= %d is known", k, best)
+							}
+						}
+						k = -k
+					}
+					an.shiftBase(st, lb, int(k))
+				} else {
+					an.killBase(st, lb, NEG)
+				}
+				continue
+			}
+			// plain assign / define
+			if an.isTokSlice(lhs) {
+				an.killSlice(st, lb)
+				continue
+			}
+			// alias creation
+			if id, ok := lhs.(*ast.Ident); ok && rhs != nil {
+				if o := an.info.ObjectOf(id); o != nil {
+					delete(st.a, o)
+					if ix, ok := ast.Unparen(rhs).(*ast.IndexExpr); ok && an.isTokSlice(ix.X) {
+						b, c := an.decomp(ix.Index)
+						st.a[o] = talias{tiPairkey(tiEs(ix.X), b), c}
+					}
+				}
+			}
+			// assignment to an index base
+			t := an.info.TypeOf(lhs)
+			if t != nil {
+				if bt, ok := t.Underlying().(*types.Basic); ok && bt.Info()&types.IsInteger != 0 {
+					// idx = const ?
+					newlb := NEG
+					if rhs != nil {
+						if tv, ok := an.info.Types[rhs]; ok && tv.Value != nil {
+							if k, ok := constant.Int64Val(tv.Value); ok {
+								newlb = int(k)
+							}
+						}
+						// idx = other + c : copy facts
+						ob, oc := an.decomp(rhs)
+						copied := false
+						for key, f := range st.f {
+							if strings.HasSuffix(key, "|"+ob) && ob != lb {
+								sl := key[:strings.Index(key, "|")]
+								nf := f
+								if nf.ub > NEG {
+									nf.ub -= oc
+								}
+								nf.lb += oc
+								an.killBase(st, lb, NEG)
+								st.f[tiPairkey(sl, lb)] = nf
+								copied = true
+							}
+						}
+						if copied {
+							continue
+						}
+					}
+					an.killBase(st, lb, newlb)
+					// ensure a pair exists for lower bound tracking of loop vars: create for all slices seen
+					if newlb > NEG {
+						for key := range st.f {
+							sl := key[:strings.Index(key, "|")]
+							k2 := tiPairkey(sl, lb)
+							if _, ok := st.f[k2]; !ok {
+								st.f[k2] = tfact{NEG, newlb}
+							}
+						}
+						st.f["~|"+lb] = tfact{NEG, newlb}
+					}
+				}
+			}
+		}
+	}
+}
+
+// canon: produce entry state keyed by canonical cursor "P"
+func (an *analyzer) canon(st *tstate) *tstate {
+	best := tfact{NEG, 0}
+	found := false
+	for key, f := range st.f {
+		if strings.Contains(key, ".tokens|") && strings.HasSuffix(key, ".tokenIndex") {
+			if !found || f.ub > best.ub {
+				best = f
+			}
+			found = true
+		}
+	}
+	n := &tstate{f: map[string]tfact{"P": best}, a: map[types.Object]talias{}}
+	return n
+}
+
+func (an *analyzer) analyze(fn *types.Func, decl *ast.FuncDecl, entry tfact, doReport bool) (exitOK bool) {
+	g := cfg.New(decl.Body, func(*ast.CallExpr) bool { return true })
+	name := fn.Name()
+	// initial: all parser cursors get entry tfact. We find parser idents: receiver + params
+	init := &tstate{f: map[string]tfact{}, a: map[types.Object]talias{}}
+	var pnames []string
+	if decl.Recv != nil {
+		for _, f := range decl.Recv.List {
+			for _, n := range f.Names {
+				if an.isParserExpr(n) {
+					pnames = append(pnames, n.Name)
+				}
+			}
+		}
+	}
+	for _, f := range decl.Type.Params.List {
+		for _, n := range f.Names {
+			if an.isParserExpr(n) {
+				pnames = append(pnames, n.Name)
+			}
+		}
+	}
+	// handlers use param 'parser'; receiver p is the same object
+	for _, pn := range pnames {
+		init.f[tiPairkey(pn+".tokens", pn+".tokenIndex")] = entry
+	}
+	in := make([]*tstate, len(g.Blocks))
+	in[0] = init
+	work := []int32{0}
+	exitOK = true
+	iter := 0
+	for len(work) > 0 {
+		iter++
+		if iter > 20000 {
+			fmt.Println("no convergence", name)
+			break
+		}
+		bi := work[0]
+		work = work[1:]
+		b := g.Blocks[bi]
+		st := in[bi].clone()
+		for i, n := range b.Nodes {
+			isCond := i == len(b.Nodes)-1 && len(b.Succs) == 2
+			_ = isCond
+			an.checkSites(st, n, name, false)
+			an.effects(st, n)
+		}
+		for si, s := range b.Succs {
+			out := st.clone()
+			if len(b.Succs) == 2 && len(b.Nodes) > 0 {
+				last := b.Nodes[len(b.Nodes)-1]
+				if e, ok := last.(ast.Expr); ok {
+					// is it a case expr?
+					if cc, ok := an.parents[e].(*ast.CaseClause); ok {
+						if sw, ok := an.parents[an.parents[cc]].(*ast.SwitchStmt); ok && sw.Tag != nil && si == 0 {
+							if sel, ok := ast.Unparen(sw.Tag).(*ast.SelectorExpr); ok && sel.Sel.Name == "Type" {
+								if pair, c, ok := an.tokenRef(out, sel.X); ok && an.nonEOFConst(e) {
+									an.learnUB(out, pair, c+1)
+								}
+							}
+						}
+					} else {
+						an.refine(out, e, si == 0)
+					}
+				}
+			}
+			var nw *tstate
+			if in[s.Index] == nil {
+				nw = out
+			} else {
+				nw = tiJoin(in[s.Index], out)
+			}
+			if in[s.Index] == nil || !tiEq(in[s.Index], nw) {
+				in[s.Index] = nw
+				work = append(work, s.Index)
+			}
+		}
+	}
+	// final pass: report + exits
+	prev := an.collectEntry
+	for bi, b := range g.Blocks {
+		if in[bi] == nil {
+			continue
+		}
+		st := in[bi].clone()
+		for _, n := range b.Nodes {
+			an.checkSites(st, n, name, doReport)
+			an.collectEntry = prev && doReport
+			an.effects(st, n)
+			an.collectEntry = false
+		}
+		if len(b.Succs) == 0 {
+			// exit block: check returns only when last node is a ReturnStmt with nil error or function end
+			ok := false
+			for _, pn := range pnames {
+				if st.get(tiPairkey(pn+".tokens", pn+".tokenIndex")).ub >= an.exitNeed {
+					ok = true
+				}
+			}
+			isErrRet := false
+			if len(b.Nodes) > 0 {
+				if r, ok2 := b.Nodes[len(b.Nodes)-1].(*ast.ReturnStmt); ok2 && len(r.Results) > 0 {
+					last := r.Results[len(r.Results)-1]
+					if id, ok3 := last.(*ast.Ident); !(ok3 && id.Name == "nil") {
+						if t := an.info.TypeOf(last); t != nil && t.String() == "error" {
+							isErrRet = true
+						}
+					}
+				}
+			}
+			if !ok && !isErrRet {
+				exitOK = false
+			}
+			if !isErrRet && an.monoProbe > 0 {
+				okm := false
+				for _, pn := range pnames {
+					if st.get(tiPairkey(pn+".tokens", pn+".tokenIndex")).lb >= an.monoProbe {
+						okm = true
+					}
+				}
+				if !okm {
+					an.monoFail = true
+				}
+			}
+		}
+	}
+	an.collectEntry = prev
+	return exitOK
+}
+
+
+func checkTokenIndex(w *World, r *Report) {
+	an := &analyzer{w: w, info: w.Info, funcs: map[*types.Func]*ast.FuncDecl{}, preserve: map[*types.Func]bool{}, mono: map[*types.Func]bool{}, leq: map[*types.Func]bool{},
+		entry: map[*types.Func]*tstate{}, handlers: map[*types.Func]bool{}, parents: w.parents, report: map[string]string{}, sites: map[string]bool{},
+		nonEOFPred: map[*types.Func]bool{}}
+	an.tokenT = w.named("Token")
+	an.parserT = w.named("Parser")
+	eof, ok := w.lookup("TOKEN_EOF").(*types.Const)
+	if !ok {
+		cannotDecide("anchor TOKEN_EOF is not a constant")
+	}
+	an.eofVal = eof.Val()
+
+	// kind predicates whose truth excludes TOKEN_EOF: func(int) bool { return x == K1 || x == K2 … }
+	for fn, fd := range w.decls {
+		if fd.Body == nil || len(fd.Body.List) != 1 || fd.Recv != nil {
+			continue
+		}
+		sig := fn.Type().(*types.Signature)
+		if sig.Params().Len() != 1 || sig.Results().Len() != 1 || !types.Identical(sig.Results().At(0).Type(), types.Typ[types.Bool]) {
+			continue
+		}
+		ret, ok := fd.Body.List[0].(*ast.ReturnStmt)
+		if !ok || len(ret.Results) != 1 {
+			continue
+		}
+		param := w.Info.Defs[fd.Type.Params.List[0].Names[0]]
+		good := true
+		n := 0
+		var walk func(e ast.Expr)
+		walk = func(e ast.Expr) {
+			e = ast.Unparen(e)
+			be, ok := e.(*ast.BinaryExpr)
+			if !ok {
+				good = false
+				return
+			}
+			switch be.Op {
+			case token.LOR:
+				walk(be.X)
+				walk(be.Y)
+			case token.EQL:
+				if identObj(w, be.X) == param && an.nonEOFConst(be.Y) {
+					n++
+				} else {
+					good = false
+				}
+			default:
+				good = false
+			}
+		}
+		walk(ret.Results[0])
+		if good && n > 0 {
+			an.nonEOFPred[fn] = true
+		}
+	}
+
+	// functions that touch a *Parser
+	handlerType, _ := w.tryLookup("blockHandlerFunc").(*types.TypeName)
+	for fn, fd := range w.decls {
+		if fd.Body == nil {
+			continue
+		}
+		usesParser := false
+		ast.Inspect(fd, func(n ast.Node) bool {
+			if e, ok := n.(ast.Expr); ok && an.isParserExpr(e) {
+				usesParser = true
+			}
+			return !usesParser
+		})
+		if !usesParser {
+			continue
+		}
+		an.funcs[fn] = fd
+		an.preserve[fn] = true
+		an.mono[fn] = true
+		an.leq[fn] = true
+		// block handlers: method values stored into a map whose element type is the handler type
+		ast.Inspect(fd, func(n ast.Node) bool {
+			kv, ok := n.(*ast.KeyValueExpr)
+			if !ok {
+				return true
+			}
+			sel, ok := kv.Value.(*ast.SelectorExpr)
+			if !ok {
+				return true
+			}
+			h, ok := w.Info.Uses[sel.Sel].(*types.Func)
+			if !ok {
+				return true
+			}
+			if cl, ok := w.parents[kv].(*ast.CompositeLit); ok {
+				if m, ok := w.Info.TypeOf(cl).Underlying().(*types.Map); ok && handlerType != nil && types.Identical(m.Elem(), handlerType.Type()) {
+					an.handlers[h] = true
+				}
+			}
+			return true
+		})
+	}
+	r.floor("functions operating on the parser", len(an.funcs), 15)
+	r.floor("block handlers stored in the handler map", len(an.handlers), 10)
+
+	// R05.1s: every tokenizer that hands tokens to the parser ends the stream with TOKEN_EOF
+	an.checkSentinel(r)
+
+	// 1. summaries (greatest fixed points): preserves idx<len, and never lowers the cursor
+	for changed := true; changed; {
+		changed = false
+		for fn, d := range an.funcs {
+			if an.preserve[fn] {
+				if !an.analyze(fn, d, tfact{0, 0}, false) {
+					an.preserve[fn] = false
+					changed = true
+				}
+			}
+			if an.leq[fn] {
+				an.exitNeed = -1
+				okl := an.analyze(fn, d, tfact{-1, 0}, false)
+				an.exitNeed = 0
+				if !okl {
+					an.leq[fn] = false
+					changed = true
+				}
+			}
+			if an.mono[fn] {
+				an.monoProbe, an.monoFail = 4, false
+				an.analyze(fn, d, tfact{NEG, 4}, false)
+				an.monoProbe = 0
+				if an.monoFail {
+					an.mono[fn] = false
+					changed = true
+				}
+			}
+		}
+	}
+	// 2. entry facts: meet over call sites (handlers: facts at the dynamic call site)
+	for round := 0; round < 12; round++ {
+		an.changedEntry = false
+		an.collectEntry = true
+		for fn, d := range an.funcs {
+			e := bottomFact()
+			if s := an.entry[fn]; s != nil {
+				e = s.f["P"]
+			}
+			an.report = map[string]string{}
+			an.analyze(fn, d, e, true)
+		}
+		if !an.changedEntry {
+			break
+		}
+	}
+	// 3. final pass with reporting
+	an.report = map[string]string{}
+	an.sites = map[string]bool{}
+	an.siteInfo = map[string]tsite{}
+	an.collectEntry = false
+	an.decrOK, an.decrBad = map[string]bool{}, map[string]string{}
+	var fns []*types.Func
+	for fn := range an.funcs {
+		fns = append(fns, fn)
+	}
+	sort.Slice(fns, func(i, j int) bool { return an.funcs[fns[i]].Pos() < an.funcs[fns[j]].Pos() })
+	for _, fn := range fns {
+		e := bottomFact()
+		if s := an.entry[fn]; s != nil {
+			e = s.f["P"]
+		}
+		an.analyze(fn, an.funcs[fn], e, true)
+	}
+	var keys []string
+	for k := range an.sites {
+		keys = append(keys, k)
+	}
+	sort.Slice(keys, func(i, j int) bool { return an.siteInfo[keys[i]].pos < an.siteInfo[keys[j]].pos })
+	for _, k := range keys {
+		si := an.siteInfo[k]
+		if why, bad := an.report[k]; bad {
+			if reason, ok := tokidxExceptions[si.fn+" | "+si.expr+" | "+si.ctx]; ok {
+				r.except("R05.1", si.fn, si.expr, w.posOf(si.pos), reason)
+				continue
+			}
+			r.bad("R05.1", si.fn, si.expr, w.posOf(si.pos), "token index not provably within bounds on every path ("+why+"): a template that ends at this point of the grammar makes the parser index past the token slice and panic")
+		} else {
+			r.ok("R05.1", si.fn, si.expr, w.posOf(si.pos), "index within [0, len) by the interval facts at this point", true)
+		}
+	}
+	r.floor("token-slice index sites in parser functions", len(keys), 100)
+	// cursor decrements
+	var dks []string
+	for k := range an.decrOK {
+		dks = append(dks, k)
+	}
+	for k := range an.decrBad {
+		dks = append(dks, k)
+	}
+	sort.Strings(dks)
+	for _, k := range dks {
+		parts := strings.SplitN(k, " ", 2)
+		if why, bad := an.decrBad[k]; bad {
+			r.bad("R05.1", "(parser cursor)", parts[1], parts[0], "the cursor can become negative / move backwards: "+why)
+		} else {
+			r.ok("R05.1", "(parser cursor)", parts[1], parts[0], "preceded by at least as many increments on every path (cursor stays >= 0)", true)
+		}
+	}
+	nPres, nMono := 0, 0
+	for fn := range an.funcs {
+		if an.preserve[fn] {
+			nPres++
+		}
+		if an.mono[fn] {
+			nMono++
+		}
+	}
+	r.Counts["parser functions preserving idx<len"] = nPres
+	r.Counts["parser functions never lowering the cursor"] = nMono
+}
+
+type tsite struct {
+	fn   string
+	expr string
+	pos  token.Pos
+	ctx  string
+}
+
+// tokidxExceptions: frozen, keyed by function + index expression, each with the protecting
+// invariant written out after reading the code.
+var tokidxExceptions = map[string]string{
+	"parseInclude | parser.tokens[parser.tokenIndex] | argument of fmt.Errorf": "diagnostic text of the block-end check: it indexes tokens[tokenIndex] on the branch `tokenIndex >= len || kind mismatch`; the first disjunct cannot be the one that fired because within parseInclude the cursor only advances over tokens matched as non-EOF kinds (or inside parseExpression, which stops at the first token it cannot use) and every stream ends with the TOKEN_EOF sentinel (checked by this rule), which no branch of parseInclude consumes. Confirmed by reading; no input reaching tokenIndex == len could be constructed. Any other unproven index in parseInclude is still reported.",
+}
+
+// checkSentinel: every function that returns a []Token and appends tokens ends each successful
+// return path with AddToken(TOKEN_EOF, …) — must-pass-through on SSA.
+func (an *analyzer) checkSentinel(r *Report) {
+	w := an.w
+	n := 0
+	// the tokenizers that hand a token stream to the parser: static callees of Parser.Parse
+	// whose first result is a []Token
+	parseFn := w.ssaFunc(w.method("Parser", "Parse"))
+	direct := map[*ssa.Function]bool{}
+	instrsOf(parseFn, func(in ssa.Instruction) {
+		if c, ok := in.(ssa.CallInstruction); ok {
+			if g := c.Common().StaticCallee(); g != nil {
+				direct[g] = true
+			}
+		}
+	})
+	for _, fn := range w.pkgFuncs() {
+		if !direct[fn] {
+			continue
+		}
+		res := fn.Signature.Results()
+		if res.Len() == 0 {
+			continue
+		}
+		sl, ok := res.At(0).Type().Underlying().(*types.Slice)
+		if !ok || !types.Identical(sl.Elem(), an.tokenT) {
+			continue
+		}
+		// does it add tokens at all?
+		adds := false
+		instrsOf(fn, func(in ssa.Instruction) {
+			if c, ok := in.(ssa.CallInstruction); ok {
+				if f := calleeFunc(c); f != nil && f.Name() == "AddToken" {
+					adds = true
+				}
+			}
+		})
+		if !adds {
+			continue
+		}
+		n++
+		// state: the last AddToken on the path had the constant kind TOKEN_EOF
+		fl := &boolFlow{fn: fn, entry: false}
+		fl.step = func(in ssa.Instruction, st bool) bool {
+			c, ok := in.(ssa.CallInstruction)
+			if !ok {
+				return st
+			}
+			f := calleeFunc(c)
+			if f == nil {
+				return st
+			}
+			if f.Name() == "AddToken" {
+				args := callArgs(c)
+				if len(args) > 0 {
+					if k, ok := args[0].(*ssa.Const); ok && k.Value != nil && constant.Compare(k.Value, token.EQL, an.eofVal) {
+						return true
+					}
+				}
+				return false
+			}
+			// helpers that add tokens clear the fact
+			if g := c.Common().StaticCallee(); g != nil && w.inPkg(g) && addsTokens(g, map[*ssa.Function]bool{}) {
+				return false
+			}
+			return st
+		}
+		fl.solve()
+		okAll := true
+		instrsOf(fn, func(in ssa.Instruction) {
+			ret, ok := in.(*ssa.Return)
+			if !ok {
+				return
+			}
+			rr := retResults(ret)
+			if len(rr) == 2 && !isNilConst(rr[1]) {
+				return // error return
+			}
+			if !fl.at(in) {
+				okAll = false
+				r.bad("R05.1", ssaName(fn), "token stream ends with TOKEN_EOF", w.posOf(ret.Pos()), "a successful return is reachable on which the last token added is not the TOKEN_EOF sentinel: the parser's bounds reasoning (a matched non-EOF token is followed by another token) no longer holds")
+			}
+		})
+		if okAll {
+			r.ok("R05.1", ssaName(fn), "token stream ends with TOKEN_EOF", w.posOf(fn.Pos()), "on every successful return the last AddToken has the constant kind TOKEN_EOF", true)
+		}
+	}
+	r.floor("tokenizers reachable from Parse", n, 1)
+}
+
+func addsTokens(fn *ssa.Function, seen map[*ssa.Function]bool) bool {
+	if seen[fn] || fn.Blocks == nil {
+		return false
+	}
+	seen[fn] = true
+	found := false
+	instrsOf(fn, func(in ssa.Instruction) {
+		if c, ok := in.(ssa.CallInstruction); ok {
+			if f := calleeFunc(c); f != nil && f.Name() == "AddToken" {
+				found = true
+			} else if g := c.Common().StaticCallee(); g != nil && g.Pkg == fn.Pkg && addsTokens(g, seen) {
+				found = true
+			}
+		}
+	})
+	return found
+}
